@@ -769,6 +769,11 @@ qb_ipcs_us_disconnect(struct qb_ipcs_connection *c)
 		qb_ipcc_us_sock_close(c->setup.u.us.sock);
 		qb_ipcc_us_sock_close(c->request.u.us.sock);
 		qb_ipcc_us_sock_close(c->event.u.us.sock);
+		/* the numbers will be somebody else's descriptors */
+		c->setup.u.us.sock = -1;
+		c->request.u.us.sock = -1;
+		c->response.u.us.sock = -1;
+		c->event.u.us.sock = -1;
 	}
 	if (c->state == QB_IPCS_CONNECTION_SHUTTING_DOWN ||
 	    c->state == QB_IPCS_CONNECTION_ACTIVE) {
